@@ -212,28 +212,16 @@ def r3_retry_condition(ctx):
     for n, (b, t) in enumerate(sites):
         cfg = cfg_of(b)
         key = "%s:new_unmasked:%d" % (fn_key(b), n)
-        # dominated by  is_subset && kind == OsError(Some(ENOENT))
-        conds = []
-        okenoent = False
-        for c in b.calls("std::cmp::PartialEq::eq"):
-            o1 = T.origins_of_arg(c, 1) + T.origins_of_arg(c, 0)
-            iskind = any(x.kind == "call" and x.term.callee == "error::Error::kind" for x in o1)
-            if not iskind:
-                continue
-            be = bool_edges(b, c)
-            if be and t.bb not in cfg.reachable(cfg.entry, cut_edges=[e.key() for e in be["true"]]):
-                # constant compared: ErrorKind::OsError(Some(2))
-                for x in o1:
-                    if x.kind == "const":
-                        raw = x.const_bytes()
-                        if raw is not None:
-                            data = decode_bytes(raw)
-                            # ErrorKind::OsError(Some(2)) : find the i32 2 in the constant
-                            if len(data) >= 8 and int.from_bytes(data[-4:], "little") == ENOENT and int.from_bytes(data[:4], "little") == 1:
-                                okenoent = True
-                    if x.kind == "agg":
-                        okenoent = okenoent
-                conds.append(c)
+        # dominated by  is_subset && kind == OsError(Some(ENOENT))  (==, != with the arms swapped, or a match arm)
+        from ..cut import errno_branches
+        brs = errno_branches(b, T)
+        en = [br for br in brs if br["errno"] == ENOENT]
+        conds = en
+        okenoent = bool(en) and t.bb not in cfg.reachable(cfg.entry, cut_edges=[e.key() for br in en for e in br["eq"]])
+        # and no other errno arm leads to the retry
+        for br in brs:
+            if br["errno"] != ENOENT and t.bb in cfg.edge_targets_reachable(br["eq"], cut_edges=[e.key() for b2 in en for e in b2["eq"]]):
+                okenoent = False
         # is_subset test: a switch on self.is_subset dominating the call
         oksub = False
         for blk in b.blocks:
